@@ -374,3 +374,22 @@ Definition files_case (fs : path -> option (list item)) (mains : list path) (obs
   let a := list_eqb fres_eqb rs obs in
   let b := list_eqb Nat.eqb (f_log st) obs_log in
   if a && b then [] else [97; b2z a; b2z b].
+
+From Prophy Require Import PcPatch.
+
+(* patch rules (C17): the model on the same member records and actions; [] when the outcome is the observed one
+   (observed: None = the rule failed, Some records otherwise) *)
+Definition optn_eqb (a b : option nat) : bool :=
+  match a, b with Some x, Some y => Nat.eqb x y | None, None => true | _, _ => false end.
+Definition optz_eqb (a b : option Z) : bool :=
+  match a, b with Some x, Some y => Z.eqb x y | None, None => true | _, _ => false end.
+Definition mem_eqb (a b : mem) : bool :=
+  Nat.eqb (m_name a) (m_name b) && Nat.eqb (m_type a) (m_type b) && optn_eqb (m_bound a) (m_bound b)
+  && optz_eqb (m_size a) (m_size b) && Bool.eqb (m_greedy a) (m_greedy b) && Bool.eqb (m_opt a) (m_opt b).
+Definition patch_case (node : nat) (ms : list mem) (patches : list (nat * list action)) (obs : option (list mem)) : list Z :=
+  match patch_node node ms patches, obs with
+  | POk r, Some o => if list_eqb mem_eqb r o then [] else [95; 1; 1]
+  | PErr, None => []
+  | POk _, None => [95; 1; 0]
+  | PErr, Some _ => [95; 0; 1]
+  end.
